@@ -146,6 +146,7 @@ type Ctx struct {
 	curFrame   *frame
 	onceDone   map[*Cell]bool
 	wgs        map[string]int64 // sync.WaitGroup counters by object
+	rec        *concRec         // non-nil: thread-trace recording mode (conc.go)
 	inGoPanic  bool
 	mapPolicy  int
 	pools      map[*Cell][]Value
@@ -1046,6 +1047,9 @@ func (c *Ctx) visit(fr *frame, instr ssa.Instruction) cont {
 		p := c.get(fr, in.Addr).(Ptr)
 		if p.IsNil() {
 			c.goPanic("nil", "nil pointer dereference (store)")
+		}
+		if c.rec != nil && c.concStore(p, in.Val.Type(), c.get(fr, in.Val)) {
+			return kNext
 		}
 		p.store(copyVal(c.get(fr, in.Val)))
 	case *ssa.If:
